@@ -9,6 +9,7 @@ import (
 	"context"
 	"encoding/json"
 	"fmt"
+	"sort"
 
 	"github.com/go-spring/log"
 
@@ -30,7 +31,7 @@ type clCase struct {
 	Enable bool     `json:"enable"`
 	Calls  []clSite `json:"calls"`
 	Seen   []struct {
-		Loc string `json:"loc"`
+		Loc int    `json:"loc"`
 		Hit bool   `json:"hit"`
 	} `json:"seen"`
 }
@@ -86,7 +87,7 @@ func cmdCaller(f hx.Flags, r *hx.Result) {
 			if p := hx.Catch(func() { file, line = site(ctx, tag, int64(i+1)) }); p != nil && bad == nil {
 				bad = p
 			}
-			if c.Seen[i].Loc == "empty" {
+			if c.Seen[i].Loc == 0 {
 				file, line = "", 0
 			}
 			wants = append(wants, want{file, line})
@@ -129,6 +130,63 @@ func cmdCaller(f hx.Flags, r *hx.Result) {
 		r.SetInfra("read cases: %v", err)
 	}
 	r.NonTrivial(int64(len(distinct)))
+	callerSweep(r, ctx)
 	log.Destroy()
 	log.VerifReset()
+}
+
+// callerSweep keeps one fast-mode configuration alive and visits every generated call site twice
+// (all first visits, then all revisits): whatever the cache holds after many distinct sites, a
+// revisited site must still report its own statement.
+func callerSweep(r *hx.Result, ctx context.Context) {
+	log.Destroy()
+	log.VerifReset()
+	sys.ResetAppenders()
+	tag := log.RegisterTag("caller_tag")
+	cfg := sys.Cfg{}
+	cfg.AddRec("ca")
+	cfg.AddLogger("lg", "Logger", "", "caller_tag", []sys.Ref{{Ref: "ca"}}, false, nil)
+	cfg["fastCaller"] = "true"
+	if err := log.Refresh(cfg.Map(nil)); err != nil {
+		r.SetInfra("caller sweep refresh: %v", err)
+		return
+	}
+	keys := make([]string, 0, len(sites.Table))
+	for k := range sites.Table {
+		keys = append(keys, k)
+	}
+	sort.Strings(keys)
+	type want struct {
+		key  string
+		file string
+		line int
+	}
+	var wants []want
+	id := int64(0)
+	for pass := 0; pass < 3; pass++ {
+		for _, k := range keys {
+			id++
+			f, l := sites.Table[k](ctx, tag, id)
+			wants = append(wants, want{k, f, l})
+		}
+	}
+	log.Destroy()
+	recs := sys.Appender("ca").Recs()
+	byID := map[int64]sys.Rec{}
+	for _, rc := range recs {
+		byID[rc.ID] = rc
+	}
+	for i, w := range wants {
+		rc, ok := byID[int64(i+1)]
+		if !ok || rc.File != w.file || rc.Line != w.line {
+			kind := "first-call"
+			if i >= len(keys) {
+				kind = "cache-hit"
+			}
+			r.Violate("wrong-location:fast:sweep-"+kind, map[string]any{"site": w.key, "visit": i/len(keys) + 1},
+				"fast mode, %d distinct sites alive: visit %d of %s reports %s:%d, the calling statement is %s:%d",
+				len(keys), i/len(keys)+1, w.key, rc.File, rc.Line, w.file, w.line)
+		}
+	}
+	r.Eval(int64(len(wants)))
 }
